@@ -669,6 +669,9 @@ class CallMixin:
                 st.assume(self.formula(src, st, Ctx(spec=True, pre=pre_state, pre_env=env, result=res,
                                                     entry_alloc=st.alloc), env, pol=-1))
             return res
+        binders = [b for b in getattr(st, "binder_ctx", []) if b.active]
+        if binders and any(b.bvs is None for b in binders):
+            raise OutOfSubset("call of %s (not an observer) under a quantifier (line %s)" % (key, line))
         # 1. preconditions
         if not cx.spec:
             for i, src in enumerate(con.get("requires", [])):
@@ -700,6 +703,8 @@ class CallMixin:
         # 3. frame: check against the caller's frames, then havoc
         entry_alloc = st.alloc
         targets = self.eval_targets(con.get("modifies", []), st, env)
+        if binders and (targets or con.get("fresh_result")):
+            raise OutOfSubset("call of %s, which writes or allocates, inside a comprehension (line %s)" % (key, line))
         if not cx.spec:
             for comp, r in targets:
                 if ctor and comp.startswith("f_") and r is not None and "self" in env and z3.eq(simp(r), simp(ref(env["self"].t))):
@@ -720,10 +725,23 @@ class CallMixin:
             t = VRef(ops.alloc_ref(st))
             assume_typed(st, t, ret)
             res = SV(t, ret)
+        elif binders:
+            # one result per element: a fresh function of the enclosing bound variables
+            bvs = [v for b in binders for v in b.bvs]
+            self._skn = getattr(self, "_skn", 0) + 1
+            fn = z3.Function("res_%s!sk%d" % (key.replace(".", "_"), self._skn), *([v.sort() for v in bvs] + [V]))
+            t = fn(*bvs)
+            for b in binders:
+                b.skolem.append(t)
+            assume_typed(st, t, ret)
+            res = SV(t, ret)
         else:
             t = fresh("res_" + key.replace(".", "_"), V)
             assume_typed(st, t, ret)
             res = SV(t, ret)
+        if res.k.head != "none":
+            # whatever the callee hands back holds only references that exist by now
+            st.assume(ops.wf_val(res.t, st.alloc))
         pcx = Ctx(spec=True, pre=pre_state, pre_env=env, result=res, entry_alloc=entry_alloc)
         for e in con.get("ensures", []):
             name, src = e if isinstance(e, tuple) else (None, e)
